@@ -15,13 +15,16 @@ REGISTRY = {
     'C06': ['contracts.c06'],
     'C07': ['contracts.c07'],
     'C08': ['contracts.c08', ('contracts.gates', only('optimize_asm_block_asm_format(gate)', 'optimize_asm_contract(gate)',
-                                                      'optimize_isolated_asm_block(gate)'))],
+                                                      'optimize_isolated_asm_block(gate)', 'optimize_block(baseline')),
+            # the acceptance test measures the candidate against the block built from original_instrs: that text must be the sub block
+            ('contracts.c14', only('specification-keys,stack-hand-over,original_instrs'))],
     'C09': ['contracts.c09', ('contracts.gates', only('optimize_asm_contract(gate)')), ('contracts.c14', only('rebuild_optimized_asm_block')), 'contracts.c14p'],
-    'C10': [('contracts.gates', only('fault-containment', 'compare_asm_block_asm_format', 'optimize_asm_block_asm_format(gate)')),
+    'C10': [('contracts.gates', only('fault-containment', 'compare_asm_block_asm_format', 'optimize_asm_block_asm_format(gate)', 'optimize_asm_from_log')),
             'contracts.c10'],
     'C11': [('contracts.gates', only('optimize_asm_from_log', 'optimize_asm_block_asm_format(gate)', 'compare_asm_block_asm_format',
                                      'optimize_asm_contract(gate)')),
             ('contracts.c17', only('execute_gasol')),      # the replay run must see the same PUSH0 setting as the optimizing run
+            ('contracts.c05', only('instruction-classes')),     # what the comparison of a replayed block can see of block-ending ids
             'contracts.c11'],
     'C12': ['contracts.c12'],
     'C13': ['contracts.c13', ('contracts.c12', only('frame('))],     # process independence includes history independence
